@@ -58,8 +58,12 @@ package zksch
 
 //@ func (*Response).Verify
 //@   nopanic[C05]
+//@   modifies nothing
+//@   allocates
 //@   requires hash != nil && hash.h != nil && public != nil && commitment != nil && shapedComm(commitment) && (z != nil ==> shapedResp(z))
 
 //@ func (*Proof).Verify
 //@   nopanic[C05]
+//@   modifies nothing
+//@   allocates
 //@   requires hash != nil && hash.h != nil && public != nil && (p != nil ==> shapedProof(p))
